@@ -67,17 +67,17 @@ type Client struct {
 	enc    *encoder.Encoder
 	Policy AckPolicy
 
-	mu       sync.Mutex
-	Inbox    []Received
-	Closed   bool      // reader saw EOF / error: the broker closed its end
-	ClosedAt time.Time
-	readErr  error
-	dropped  bool // the harness closed the client end
+	mu        sync.Mutex
+	Inbox     []Received
+	Closed    bool // reader saw EOF / error: the broker closed its end
+	ClosedAt  time.Time
+	readErr   error
+	dropped   bool // the harness closed the client end
 	SessionID string
-	writeMu  sync.Mutex
-	paused   atomic.Bool
-	resume   chan struct{}
-	srv      *faultyConn
+	writeMu   sync.Mutex
+	paused    atomic.Bool
+	resume    chan struct{}
+	srv       *faultyConn
 }
 
 // faultyConn is the broker's end of the connection; it can be made to fail writes (a send that
@@ -192,15 +192,15 @@ func (c *Client) BrokerClosed() bool {
 
 // Connect sends CONNECT and waits for the answer; returns the CONNACK code (-1: none).
 type ConnectOpts struct {
-	ClientID  string
-	KeepAlive int32
-	User      string
-	Password  string
-	WillTopic string
-	WillMsg   string
-	WillQos   int32
+	ClientID   string
+	KeepAlive  int32
+	User       string
+	Password   string
+	WillTopic  string
+	WillMsg    string
+	WillQos    int32
 	WillRetain bool
-	Clean     bool
+	Clean      bool
 }
 
 func (c *Client) Connect(o ConnectOpts) int32 {
@@ -312,7 +312,6 @@ func (c *Client) Count(prefix string) int {
 	return n
 }
 
-
 // readPacket is the harness-side decoder: the codec library's decoder has no UNSUBACK case, so the
 // client reads the fixed header itself and unmarshals the body per type.
 func readPacket(r io.Reader) (packet.Packet, error) {
@@ -375,7 +374,6 @@ func readPacket(r io.Reader) (packet.Packet, error) {
 	}
 	return p, nil
 }
-
 
 // EncodeConnect builds CONNECT bytes (MQTT 3.1.1). The codec library's CONNECT encoder clobbers the
 // will / clean-session flags, so the harness encodes this packet itself.
